@@ -94,6 +94,7 @@ func sat(a, b int64) int64 {
 }
 
 type atom struct {
+	key    string
 	name   string
 	lo, hi int64
 	def    ssa.Value // a value whose linear form is exactly this atom (first seen)
@@ -158,7 +159,7 @@ func (f *FA) newAtom(key, name string, lo, hi int64) int {
 	if id, ok := f.byKey[key]; ok {
 		return id
 	}
-	f.atoms = append(f.atoms, atom{name: name, lo: lo, hi: hi})
+	f.atoms = append(f.atoms, atom{key: key, name: name, lo: lo, hi: hi})
 	id := len(f.atoms) - 1
 	f.byKey[key] = id
 	return id
@@ -458,6 +459,7 @@ func (f *FA) prepare() {
 			}
 		}
 	}
+	f.injectAccumulatorInvariants()
 	// q = a / k with a constant k > 0 and a >= 0 (a length): k*q <= a <= k*q + k-1, from the definition on
 	for _, b := range f.Fn.DomPreorder() {
 		for _, ins := range b.Instrs {
@@ -489,6 +491,66 @@ func (f *FA) prepare() {
 			q := f.LFOf(bo)
 			f.Inject(b, Fact{L: a.add(q, -k.C)})
 			f.Inject(b, Fact{L: q.scale(k.C).add(konst(k.C-1), 1).add(a, -1)})
+		}
+	}
+}
+
+// injectAccumulatorInvariants: a loop with one back edge that, in every iteration, appends a constant number c of
+// octets to a byte slice p (p' = append(p, x...) with len(x) = c, in a block every iteration passes) and adds 1
+// to a counter q keeps len(p) - c*q constant: len(p) = len(p0) + c*(q - q0). The fact is attached to the loop
+// header (p and q are its φ-nodes, fixed during one iteration, so it holds wherever the header dominates).
+func (f *FA) injectAccumulatorInvariants() {
+	for _, li := range naturalLoops(f.Fn) {
+		h := li.header
+		if len(h.Preds) != 2 || len(li.backs) != 1 {
+			continue
+		}
+		latch := li.backs[0]
+		bi := -1
+		for i, p := range h.Preds {
+			if p == latch {
+				bi = i
+			}
+		}
+		if bi < 0 {
+			continue
+		}
+		var accs, ctrs []*ssa.Phi
+		for _, ins := range h.Instrs {
+			p, ok := ins.(*ssa.Phi)
+			if !ok {
+				break
+			}
+			if isByteSlice(p.Type()) {
+				accs = append(accs, p)
+			} else if _, _, isInt := f.typeRange(p.Type()); isInt {
+				ctrs = append(ctrs, p)
+			}
+		}
+		for _, q := range ctrs {
+			q0 := f.LFOf(q.Edges[1-bi])
+			step, ok := q.Edges[bi].(*ssa.BinOp)
+			if !q0.isConst() || !ok || step.Op != token.ADD || step.X != ssa.Value(q) || !step.Block().Dominates(latch) {
+				continue
+			}
+			if k := f.LFOf(step.Y); !k.isConst() || k.C != 1 {
+				continue
+			}
+			for _, p := range accs {
+				l0 := f.SliceLen(p.Edges[1-bi])
+				ap := isAppendCall(p.Edges[bi])
+				if !l0.isConst() || ap == nil || len(ap.Call.Args) != 2 || ap.Call.Args[0] != ssa.Value(p) || !ap.Block().Dominates(latch) {
+					continue
+				}
+				c := f.SliceLen(ap.Call.Args[1])
+				if !c.isConst() || c.C <= 0 || c.C > 1<<16 {
+					continue
+				}
+				// len(p) - c*q - (l0 - c*q0) == 0
+				d := f.SliceLen(p).add(f.LFOf(q), -c.C).add(konst(l0.C-c.C*q0.C), -1)
+				f.Inject(h, Fact{L: d})
+				f.Inject(h, Fact{L: d.scale(-1)})
+			}
 		}
 	}
 }
@@ -814,6 +876,21 @@ func (f *FA) lf0(v ssa.Value) LF {
 				return f.C.hashSizeLF(f, x.Call.Value)
 			}
 		}
+		if isInt && x.Call.IsInvoke() && len(x.Call.Args) == 0 && f.C.pureGetter(x) {
+			// a getter of an immutable descriptor (every implementer returns a field of its receiver or a
+			// constant): one value per receiver object, however often it is called
+			if ld, ok := x.Call.Value.(*ssa.UnOp); ok && ld.Op == token.MUL {
+				if cls, ok := f.loadCls[ld]; ok {
+					lo, hi := tlo, thi
+					if f.CallRange != nil {
+						if l2, h2, ok := f.CallRange(x); ok {
+							lo, hi = l2, h2
+						}
+					}
+					return f.atomLF("getter:"+x.Call.Method.Name()+":"+cls, x.Call.Method.Name()+"("+cls+")", lo, hi)
+				}
+			}
+		}
 		if f.CallRange != nil && isInt {
 			if lo, hi, ok := f.CallRange(x); ok {
 				return f.atomLF("v:"+v.Name(), f.vname(v), lo, hi)
@@ -846,9 +923,100 @@ func (f *FA) lf0(v ssa.Value) LF {
 		if !isInt {
 			return opaque()
 		}
+		if key, ok := f.selectKey(x); ok {
+			// `c ? a : b` over a condition and alternatives that have names of their own: one value per
+			// (condition, alternatives), however often the code computes it (an accessor inlined twice)
+			lo, hi := int64(INF), int64(-INF)
+			for _, e := range x.Edges {
+				l, h := f.bounds(f.LFOf(e), nil)
+				if l < lo {
+					lo = l
+				}
+				if h > hi {
+					hi = h
+				}
+			}
+			if lo < tlo {
+				lo = tlo
+			}
+			if hi > thi {
+				hi = thi
+			}
+			return f.atomLF(key, f.vname(v), lo, hi)
+		}
 		return f.phiLF(x, tlo, thi)
 	}
 	return opaque()
+}
+
+// selectKey: φ merges exactly two alternatives of an if/else whose condition is a nil test of a value with a
+// canonical name (a field load by load class): a key built from the condition and the alternatives' linear forms.
+func (f *FA) selectKey(ph *ssa.Phi) (string, bool) {
+	b := ph.Block()
+	if len(ph.Edges) != 2 || len(b.Preds) != 2 {
+		return "", false
+	}
+	for _, p := range b.Preds {
+		if b.Dominates(p) {
+			return "", false // loop header
+		}
+	}
+	d := b.Idom()
+	if d == nil {
+		return "", false
+	}
+	iff, ok := d.Instrs[len(d.Instrs)-1].(*ssa.If)
+	if !ok || d.Succs[0] == d.Succs[1] {
+		return "", false
+	}
+	cond, ok := iff.Cond.(*ssa.BinOp)
+	if !ok || (cond.Op != token.EQL && cond.Op != token.NEQ) || !isNilConst(cond.Y) {
+		return "", false
+	}
+	ld, ok := cond.X.(*ssa.UnOp)
+	if !ok || ld.Op != token.MUL {
+		return "", false
+	}
+	cls, ok := f.loadCls[ld]
+	if !ok {
+		return "", false
+	}
+	// which alternative belongs to which side
+	var side [2]int
+	for i, p := range b.Preds {
+		switch {
+		case p == d && d.Succs[0] == b:
+			side[i] = 0
+		case p == d && d.Succs[1] == b:
+			side[i] = 1
+		case d.Succs[0].Dominates(p) && !d.Succs[1].Dominates(p):
+			side[i] = 0
+		case d.Succs[1].Dominates(p) && !d.Succs[0].Dominates(p):
+			side[i] = 1
+		default:
+			return "", false
+		}
+	}
+	if side[0] == side[1] {
+		return "", false
+	}
+	var alt [2]string
+	for i, e := range ph.Edges {
+		if _, isPhi := e.(*ssa.Phi); isPhi {
+			return "", false
+		}
+		l := f.LFOf(e)
+		for a := range l.T {
+			if !strings.HasPrefix(f.atoms[a].key, "getter:") && !strings.HasPrefix(f.atoms[a].key, "cls:") {
+				return "", false
+			}
+		}
+		alt[side[i]] = l.key()
+	}
+	if cond.Op == token.EQL {
+		alt[0], alt[1] = alt[1], alt[0] // normalise to the "!= nil" reading
+	}
+	return "sel:" + cls + "!=nil?" + alt[0] + ":" + alt[1], true
 }
 
 func (f *FA) vname(v ssa.Value) string {
@@ -1929,4 +2097,34 @@ func (f *FA) ShowFacts(facts []Fact) string {
 		parts = append(parts, f.Show(ft.L)+" "+op)
 	}
 	return strings.Join(parts, "; ")
+}
+
+// pureGetter: every module implementer the invoke can reach returns a field of its receiver (or a constant) and
+// does nothing else, and no external implementer exists.
+func (c *Ctx) pureGetter(call *ssa.Call) bool {
+	cs := c.CalleesAt(call)
+	if cs.Dynamic || len(cs.External) > 0 || len(cs.Mod) == 0 {
+		return false
+	}
+	for _, g := range cs.Mod {
+		if g.Blocks == nil || len(g.Blocks) != 1 {
+			return false
+		}
+		for _, ins := range g.Blocks[0].Instrs {
+			switch x := ins.(type) {
+			case *ssa.FieldAddr:
+				if len(g.Params) == 0 || x.X != ssa.Value(g.Params[0]) {
+					return false
+				}
+			case *ssa.UnOp:
+				if x.Op != token.MUL {
+					return false
+				}
+			case *ssa.Return, *ssa.DebugRef:
+			default:
+				return false
+			}
+		}
+	}
+	return true
 }
